@@ -340,6 +340,79 @@ def badxml_cases(draw, tier):
     return {'spec': spec, 'cut': draw(st.integers(5, 400)), 'order': draw(st.lists(st.sampled_from(['base', 'tolerant_xml']), min_size=2, max_size=4))}
 
 
+# ----------------------------------------------------------------------------- a crash injected into the real cache write
+class _FaultyFile:
+    """file object that lets `limit` bytes through and then fails, as a power cut / full disk during pickle.dump would"""
+
+    def __init__(self, f, limit):
+        self.f, self.limit, self.written = f, limit, 0
+
+    def write(self, b):
+        room = self.limit - self.written
+        if len(b) > room:
+            self.f.write(bytes(b[:room]))
+            self.written = self.limit
+            self.f.flush()
+            raise OSError('injected crash while writing the cache')
+        self.written += len(b)
+        return self.f.write(b)
+
+    def __getattr__(self, name):
+        return getattr(self.f, name)
+
+    def __enter__(self):
+        return self
+
+    def __exit__(self, *exc):
+        self.f.close()
+        return False
+
+
+def crash_size(tier):
+    step = 5 if tier == 'quick' else 1
+    return sum((len(fixed(L)[2]) + step - 1) // step for L in LOADERS)
+
+
+def crash_case(tier, idx):
+    step = 5 if tier == 'quick' else 1
+    for L in LOADERS:
+        n = (len(fixed(L)[2]) + step - 1) // step
+        if idx < n:
+            return {'loader': L, 'k': idx * step}
+        idx -= n
+    raise IndexError
+
+
+def run_crash(case):
+    import builtins
+
+    import gemdat.trajectory as gt
+
+    fs, path, full = fixed(case['loader'])
+    k = case['k']
+    if os.path.exists(path):
+        os.remove(path)
+
+    def faulty_open(file, mode='r', *a, **kw):
+        f = builtins.open(file, mode, *a, **kw)
+        return _FaultyFile(f, k) if ('w' in mode and str(file).endswith('.cache')) else f
+
+    gt.open = faulty_open  # shadows the builtin inside gemdat.trajectory only
+    try:
+        crashed = fs.load('base')
+    finally:
+        del gt.open
+    if not isinstance(crashed, Raised) or 'injected crash' not in str(crashed.exc):
+        raise Violation('injected-write-fault-not-observed', f'{case["loader"]}: the write of {len(full)} cache bytes was cut at byte {k} but the load returned {crashed!r}')
+    left = open(path, 'rb').read() if os.path.exists(path) else None
+    if left is not None and left != full[: len(left)]:
+        raise Violation('partial-cache-is-a-prefix', f'{case["loader"]}: {len(left)} bytes left behind are not a prefix of the complete cache')
+    check_recovery(fs, 'base', path, full, f'{case["loader"]}: cache write interrupted after {k} of {len(full)} bytes ({"no file" if left is None else str(len(left)) + " bytes"} left behind)')
+    if open(path, 'rb').read() != full:
+        raise Violation('complete-cache-left-behind', f'{case["loader"]}: cache after recovery differs from the complete cache')
+    return {'nontrivial': left is not None and 0 < len(left) < len(full), 'labels': [case['loader']]}
+
+
 # ----------------------------------------------------------------------------- generated file sets
 @st.composite
 def specs(draw, loaders=LOADERS):
@@ -545,6 +618,9 @@ def run_log(case):
 SUBS = [
     Sub(name='all-prefixes', kind='enum', run=run_prefix, size=prefix_size, case_at=prefix_case, exhaustive=True,
         rule='complete enumeration of every prefix length 0..len-1 of the cache file of one fixed file set per loader (LAMMPS, VASP, GROMACS): load returns the reference, the rewritten cache is byte-identical to the complete one and loads to the reference',
+        shards={'quick': 16, 'thorough': 16}),
+    Sub(name='crash-during-write', kind='enum', run=run_crash, size=crash_size, case_at=crash_case, exhaustive={'quick': False, 'thorough': True},
+        rule='fault injection into the real write path: the file object handed to pickle.dump fails after k bytes (every 5th k in the quick tier, every k in the thorough tier, per loader); the interrupted load must surface the fault, leave at most a prefix, and the next load must return the reference and a complete cache',
         shards={'quick': 16, 'thorough': 16}),
     Sub(name='unreadable-kinds', kind='enum', run=run_garbage, size=garbage_size, case_at=garbage_case, exhaustive=True,
         rule='every unreadable-cache kind (empty, zeros, text, bad opcode, deleted, and nine byte strings on which pickle.load raises ValueError / ModuleNotFoundError / AttributeError / EOFError / UnpicklingError) x every loader',
